@@ -3,6 +3,7 @@
 #include <mustache/utils/logger.hpp>
 #include <mustache/utils/profiler.hpp>
 
+#include <deque>
 #include <map>
 #include <mutex>
 
@@ -18,7 +19,8 @@ namespace {
         };
         std::map<std::string, Element> type_map;
         IdType next_component_id{IdType::make(0)};
-        std::vector<ComponentInfo> components_info;
+        // references handed out by componentInfo() are kept by callers (command buffers store them): growth must not move elements
+        std::deque<ComponentInfo> components_info;
         mutable std::mutex mutex;
 
         IdType getId(const ComponentInfo& info) {
